@@ -219,7 +219,16 @@ def rule_dist(ctx):
         raise AnalysisError("tunnel_distance: np.radians applied to %s, not to one of the four angles" % u)
     sym_val = None
     try:
-        sym_val = Sym(ctx.repo, hooks={"radians": to_rad_t, "deg2rad": to_rad_t, "asarray": lambda u: u, "atleast_1d": lambda u: u, "asanyarray": lambda u: u}) \
+        class _Models:
+            pass
+
+        def _sub(base, n_, ev_, env_, func_, depth_):
+            if isinstance(base, _Models):
+                nm_ = const_value(n_.slice) if isinstance(n_.slice, ast.Constant) else "model"
+                return (sp.Symbol("a_%s" % nm_, positive=True), sp.Symbol("e_%s" % nm_, nonnegative=True))
+            return NotImplemented
+        sym_val = Sym(ctx.repo, hooks={"radians": to_rad_t, "deg2rad": to_rad_t, "asarray": lambda u: u, "atleast_1d": lambda u: u, "asanyarray": lambda u: u,
+                                       "ellipsoidmodels": lambda *a_: _Models(), "subscript": _sub}) \
             .block(g.body, dict(zip(g.params, raw_t)), g, 0)
     except (Unsupported, AnalysisError):
         sym_val = None
